@@ -65,8 +65,9 @@ func genC06(w *simrt.Choices, tier string, avoid map[string]bool) Case {
 	k := &c06Case{Store: StoreCfg{Backend: []string{"mem", "file"}[w.Choose(2)]}, Net: netProfile(w)}
 	k.Net.MaxDelay = []time.Duration{0, 3 * time.Millisecond}[w.Choose(2)]
 	k.Limit = []int{1024, 2000, 4096, 10000, 65536}[w.Choose(5)]
-	if tier == "thorough" && w.Choose(10) == 0 {
-		k.Limit = []int{262144, 1 << 20, 4 << 20}[w.Choose(3)]
+	if tier == "thorough" && w.Choose(20) == 0 {
+		// (4 MiB and more was tried: single runs of several minutes, worker batches beyond their watchdog)
+		k.Limit = []int{262144, 1 << 20}[w.Choose(2)]
 	}
 	if k.Limit > 8192 && k.Net.SegMode == 2 {
 		k.Net.SegMode = 1
@@ -75,6 +76,9 @@ func genC06(w *simrt.Choices, tier string, avoid map[string]bool) Case {
 		k.Net.BufCap = 65536
 	}
 	n := 1 + w.Choose(4)
+	if k.Limit > 65536 && n > 2 {
+		n = 2
+	}
 	for i := 0; i < n; i++ {
 		m := c06Msg{Token: fmt.Sprintf("tok%d", i+1)}
 		switch w.Choose(7) {
